@@ -250,6 +250,15 @@ pub fn check_log(h: &Hist, info: &SchedInfo) -> Result<(bool, Vec<&'static str>)
             if log[d..].iter().any(|o| matches!(o, Op::CheckAllowed { on_demand: false, .. })) {
                 classes.push("timer_check_after_handles_dropped");
             }
+            // "dropping all handles leaves scheduled operation intact": the scheduling rules (C12's monitor: one timing
+            // question, announcement and exact timers per wait; no unrequested check or ping before both timers fired)
+            // must keep holding after the last drop. A breach that already exists in the log up to the drop is C12's to
+            // report, not this clause's.
+            if let Err(f) = super::c12::check_log(h, info) {
+                if f.signature != "stalled" && super::c12::check_log_upto(h, info, d + 1).is_ok() {
+                    return Err(failure(&format!("schedule-not-intact-after-handles-dropped:{}", f.signature), format!("after the last control handle was dropped: {}", f.message), h, Some((d.saturating_sub(6), (d + 30).min(log.len())))));
+                }
+            }
         }
     }
     if phases_hit.len() >= 2 {
